@@ -1258,6 +1258,11 @@ def i_unop(I, fr, ins):
             raise GoPanic('nil-deref', 'load through nil pointer', ins.get('pos', ''))
         if not isinstance(x, Ptr):
             raise Inconclusive('load through %r' % (x,))
+        hook = getattr(I, 'shared_load_hook', None)
+        if hook is not None:
+            handled, val = hook(I, x, ins)
+            if handled:
+                return val
         return copyval(x.c[x.i])
     if op == '!':
         return znot(x)
@@ -1742,6 +1747,9 @@ def i_store(I, fr, ins):
         raise GoPanic('nil-deref', 'store through nil pointer', ins.get('pos', ''))
     if not isinstance(p, Ptr):
         raise Inconclusive('store through %r' % (p,))
+    hook = getattr(I, 'shared_store_hook', None)
+    if hook is not None and hook(I, p, v, ins):
+        return None
     store_into(p.c, p.i, v)
     return None
 
